@@ -51,6 +51,12 @@ RULE = ('correspondence: (1) fixup_one_index / fixup_slice_indices exhaustively 
         'cut() of windows and of singleton views (returned elements, tree and view bounds afterwards), replace/remove through '
         'singleton views; (P4) fixed interleaved call-argument shapes x real fields x every empty/one-element range x entry '
         'points; no-op requests (deleting an empty range) and FST.replace(code, one=False) on an element are entry points too; '
+        '(P6) raw mode and the `to` option: put(code, i, field, raw=True[, to=element j]) and element.replace(code, raw=True[, '
+        'to=...]) for every int index (negative, out of range) and every j >= i, and put_slice(code, a, b, field, raw=True) over '
+        'every non-empty range in positive and negative/"end" forms, on 21 families incl. body/_body with and without docstring, '
+        'orelse, elts, args/_args/_bases, targets, Dict._all, arguments._all, patterns, items, names; oracle: Python list '
+        'indexing selects the elements (IndexError out of range), CPython positions give their span, expected = ast.parse of the '
+        'text with that span replaced (raw = literal replacement + reparse); '
         '(P5) refusal product: every marker shape of `arguments` (`/`, bare `*`, *args, kw-only with/without defaults, **kw) in '
         'def / async def / lambda x every position x code of every argument kind incl. invalid orderings; interleaved Call / '
         'ClassDef arguments likewise; every family with unparsable code: if the request raises, source and full tree dump must '
@@ -76,7 +82,7 @@ TRUSTED = [
     'not modelled (evaluated directly on the real code by the sweep instead): what each put-slice / put-one handler does to '
     'text and tree; fixup_field_body (only its default-field table is extracted); clip_src_loc; validate_put_arglike; '
     'str name indexing resolving to NON-direct children (find_def scope walk; exercised by the sweep with dotted names only); '
-    'raw mode; options other than defaults',
+    'raw="auto" fallback and raw puts with AST / FST code; options other than raw / to / one',
     'sweep exclusions: Interactive.body, the special slice container kinds (_Assign_targets, _aliases, ...), identifier-'
     'valued optional fields, Compare insertions (an operator must be supplied; only operand replacement one-for-one and '
     'deletion are checked, operators are blanked before comparing), requests whose result would leave a field below its '
@@ -145,7 +151,7 @@ def correspondence(ctx):
     for i in impl:
         ctx.tally('entry_canon', i['canon'].get('k'))
     _compare(ctx, 'entry point normalisation vs Pfst.Index.canon/resolve', cases, impl, norm=c03_corr.canon_norm)
-    cases, impl = c03_corr.view_cases(rng, 4000 if q else 40000)
+    cases, impl = c03_corr.view_cases(rng, 2500 if q else 40000)
     for c, i in zip(cases, impl):
         ctx.tally('view_op', c['op'] + (':IndexError' if i == 'IndexError' else ''))
     _compare(ctx, 'FSTView index arithmetic vs Pfst.View', cases, impl)
@@ -181,6 +187,10 @@ def _sweep(ctx, per_family, per_optional, n_progs, per_prog, full_product=False)
         n0 += len(lst)
         _report(ctx, lst)
     for lst in pmap(c03_edits.run_name_case, c03_edits.name_items(full_product)):
+        n0 += len(lst)
+        _report(ctx, lst)
+    # raw mode and the `to` option: every index form x every `to` element, real and virtual fields
+    for lst in pmap(c03_edits.run_raw_product_case, c03_edits.raw_items()):
         n0 += len(lst)
         _report(ctx, lst)
     # deliberately refused requests: everything must stay as it was and a following valid edit behaves as on a fresh tree
@@ -243,7 +253,7 @@ def _sweep(ctx, per_family, per_optional, n_progs, per_prog, full_product=False)
 
 def sweep(ctx):
     q = ctx.quick
-    n = _sweep(ctx, 60 if q else 800, 40 if q else 400, 200 if q else 2500, 6 if q else 12, full_product=not q)
+    n = _sweep(ctx, 40 if q else 800, 30 if q else 400, 150 if q else 2500, 6 if q else 12, full_product=not q)
     ctx.notes['sweep_edits'] = n
     zero = [f.name + '/' + f.tag for f in c03_edits.FAMILIES
             if not ctx.dist.get('kind_field', {}).get(f.name + (('/' + f.tag) if f.tag else ''))]
@@ -266,6 +276,11 @@ def replay(ctx, data):
     if w.get('name_args'):
         ci, field, doc, shape = w['name_args']
         for r in c03_edits.run_name_case((ci, field, doc, shape)):
+            if 'fail' in r and (r['a'], r['b'], r['new'], r['op']) == (w['a'], w['b'], w['new'], w['op']):
+                ctx.fail(f'C03|{r["sigop"]}|{r["fam"]}|{r["fail"]}', f'{r["op"]} on {r["fam"]}: {r["fail"]} {r.get("detail", "")}', r)
+        return
+    if w.get('raw_args') is not None:
+        for r in c03_edits.run_raw_product_case(w['raw_args']):
             if 'fail' in r and (r['a'], r['b'], r['new'], r['op']) == (w['a'], w['b'], w['new'], w['op']):
                 ctx.fail(f'C03|{r["sigop"]}|{r["fam"]}|{r["fail"]}', f'{r["op"]} on {r["fam"]}: {r["fail"]} {r.get("detail", "")}', r)
         return
